@@ -114,6 +114,8 @@ type Env struct {
 	Image  *simenv.Image
 	Res    *Result
 	Known  map[string]bool // open known-finding ids (tolerances enabled)
+	Keep   bool            // keep the transcript lines (differential world only; single-task runs)
+	Lines  []string
 	failed bool
 	th     uint64 // running FNV-1a hash of the canonical transcript
 	tn     int
@@ -201,6 +203,9 @@ func (e *Env) UseKnown(id string) {
 //go:norace
 func (e *Env) T(format string, a ...interface{}) {
 	s := fmt.Sprintf(format, a...)
+	if e.Keep {
+		e.Lines = append(e.Lines, s)
+	}
 	h := e.th
 	if e.tn == 0 {
 		h = 14695981039346656037
@@ -306,6 +311,26 @@ func (e *Env) finish() {
 			r.Tail = r.Tail[len(r.Tail)-40:]
 		}
 	}
+}
+
+// Sub runs plan p in world w with a fresh Env that shares this Env's image and known findings and
+// keeps its transcript; used by the differential world.
+func (e *Env) Sub(w World, p *Plan) (*Result, []string) {
+	res := &Result{Prop: p.Prop, World: p.World, Seed: p.Seed, Verdict: "ok"}
+	sub := &Env{Plan: p, Image: e.Image, Res: res, Known: e.Known, Keep: true}
+	func() {
+		defer func() {
+			if r := recover(); r != nil {
+				if _, ok := r.(Failure); !ok {
+					res.Verdict = "harness"
+					res.Msg = fmt.Sprintf("harness panic: %v\n%s", r, debug.Stack())
+				}
+			}
+			sub.finish()
+		}()
+		w.Exec(p, sub)
+	}()
+	return res, sub.Lines
 }
 
 // Abort is installed as simcore.AbortFn by simnode; declared here for worlds that need to end a
